@@ -522,6 +522,32 @@ func c08(x *mon.Ctx) {
 			add("value-agreeing-under-a-checksum", fmt.Sprintf("rtmr2/%s#%d", name, rep), qp, ref.Policy{Rtmrs: [][]byte{nil, nil, look(q.Rtmrs[2]), nil}})
 		}
 	}
+	// an MR_TD that ends in zero bytes against allow-lists (2 … 1000 entries) holding its non-zero PREFIX as a too-short entry, or
+	// the MR_TD followed by zeros as a too-long one: an entry of the wrong size is nobody's value, however it would read padded or cut
+	for _, nfill := range []int{1, 3, 63, 64, 65, 100, 1000} {
+		for _, k := range []int{47, 32, 1} {
+			qp := policyQuote(r)
+			for i := 136 + k; i < 184; i++ {
+				qp.Body[i] = 0
+			}
+			q, _ := ref.ParseQuote(qp.Bytes())
+			var fill [][]byte
+			for i := 0; i < nfill; i++ {
+				fill = append(fill, randBytes(r, 48))
+			}
+			for _, where := range []string{"first", "last"} {
+				for ename, e := range map[string][]byte{"prefix-only": append([]byte{}, q.MrTd[:k]...), "followed-by-a-zero": append(append([]byte{}, q.MrTd...), 0), "followed-by-48-zeros": append(append([]byte{}, q.MrTd...), make([]byte, 48)...)} {
+					l := append([][]byte{}, fill...)
+					if where == "first" {
+						l = append([][]byte{e}, l...)
+					} else {
+						l = append(l, e)
+					}
+					add("mr-td-ending-in-zeros", fmt.Sprintf("fillers=%d/prefix=%d/%s/%s", nfill, k, ename, where), qp, ref.Policy{AnyMrTd: l})
+				}
+			}
+		}
+	}
 	// a policy that expects a value outside the masks: the quote must equal it AND respect the masks
 	{
 		qp := policyQuote(r)
